@@ -24,6 +24,7 @@ var kinds = []struct {
 	{"csv", runCSV},
 	{"obj", runOBJ},
 	{"3mf", run3MF},
+	{"write_fault", runWriteFaults},
 }
 
 func runCase(c *Case, src *choice.Source, out *wproto.Out, id int) {
@@ -54,6 +55,7 @@ func runCase(c *Case, src *choice.Source, out *wproto.Out, id int) {
 	out.Count("fault.FRAG", st.Frags)
 	out.Count("fault.ZERO", st.Zero)
 	out.Count("fault.DATA+EOF", st.DataEOF)
+	out.Count("fault.W-ERR", st.WriteFaults)
 	out.Count("faces", st.Faces)
 	out.Count("rows", st.Rows)
 	for s := range st.Shapes {
